@@ -1,5 +1,5 @@
 (* C07 - ordinary kriging returns the solution of the ordinary-kriging system. *)
-From SG Require Import Base.Prelude Base.NumpyPrims Model.Pairs Model.Kriging Proofs.PairsP Proofs.KrigingP.
+From SG Require Import Base.Prelude Base.NumpyPrims Model.Pairs Model.Kriging Proofs.PairsP Proofs.KrigingP Proofs.StableP.
 Local Open Scope Q_scope.
 
 (* neighbourhood: the columns within range ... *)
@@ -51,3 +51,13 @@ Example C07_nonvacuous :
   n_nopoints (transform [inl (1, 2); inr NoPoints; inl (3, 4)]) = 1%nat /\
   sigmas (transform [inl (1, 2); inr NoPoints; inl (3, 4)]) = [Some 2; None; Some 4].
 Proof. vm_compute. repeat split; reflexivity. Qed.
+
+(* the sort is stable (np.argsort(kind="stable")): candidates at one and the same distance keep their index order, and the
+   selected ones among them are the first ones - which equidistant observations enter a neighbourhood is determined *)
+Theorem C07_sort_stable k l : filter (has_key k) (sort_by l) = filter (has_key k) l.
+Proof. exact (sort_by_stable k l). Qed.
+Print Assumptions C07_sort_stable.
+Theorem C07_ties_by_position cands N k :
+  exists m, filter (has_key k) (firstn N (sort_by cands)) = firstn m (filter (has_key k) cands).
+Proof. exact (closest_ties_by_position cands N k). Qed.
+Print Assumptions C07_ties_by_position.
